@@ -44,7 +44,16 @@ def _weights(d, rng, lead, N):
     if kind == 'none':
         return None, kind
     if kind == 'integer':
-        return rng.integers(1, 5, size=(*lead, N)).astype(float), kind
+        w = rng.integers(1, 5, size=(*lead, N))
+        # counts as float, as integers, or a boolean selection
+        sk = int(d.aux(81).integers(0, 4))
+        if sk == 1:
+            return w.astype(np.int64), 'integer-int64'
+        if sk == 2:
+            b = w >= 2
+            b[..., :max(2, N // 2)] = True
+            return b, 'boolean'
+        return w.astype(float), kind
     s = rng.uniform(0.1, 3.0, size=(*lead, N))
     if kind == 'zeros':
         idx = d.subset(N, 1, max(1, N // 3))
@@ -218,6 +227,20 @@ def mixture_weight_update(d, ctx):
     sal, skind = _weights(d, rng, lead, N)
     nd = aff.ndim
     wca = d.choice(mm.weight_axis_options('cacgmm', len(lead)))
+    # more groupings for two and three leading axes, and the same axes written
+    # as non-negative indices / list / tuple (auxiliary stream)
+    aux = d.aux(82)
+    if len(lead) >= 2 and aux.integers(0, 2):
+        pool = [(-4,), (-4, -3), (-4, -1), (-4, -3, -1), (-3, -1), -4]
+        if len(lead) >= 3:
+            pool += [(-5,), (-5, -3), (-5, -4, -3, -1)]
+        wca = pool[int(aux.integers(0, len(pool)))]
+    if aux.integers(0, 2) == 0:
+        if isinstance(wca, int):
+            wca = wca % nd
+        else:
+            conv = [a % nd if aux.integers(0, 2) else a for a in wca]
+            wca = tuple(conv) if aux.integers(0, 2) else list(conv)
     got = ctx.lib(estimate_mixture_weight, aff, sal, wca)
     ctx.describe(lead=lead, K=K, N=N, saliency=skind, weight_constant_axis=wca)
     ctx.label(f'wca={wca}', f'saliency={skind}')
